@@ -19,7 +19,8 @@ structure ClassesOK (cfg : Cfg) (s : State) (casm' : Map Nat CasmMeta) (b : Bloc
   dDecl : Sorted b.diff.declV1
   dMig : Sorted b.diff.migrated
   dDefs : Sorted b.classes
-  nodup : (b.diff.declV0 ++ Map.keys b.diff.declV1).Nodup
+  /-- only the legacy `removeDeclaredClasses` (as found) needs it, see `legacy_duplicate_declaration_counterexample` -/
+  nodup : cfg.dupTolerant = false → (b.diff.declV0 ++ Map.keys b.diff.declV1).Nodup
   known0 : ∀ c ∈ b.diff.declV0, (Map.get s.classes c).isSome = true ∨ (Map.get b.classes c).isSome = true
   decl1 : ∀ c h, Map.get b.diff.declV1 c = some h →
     Map.get s.classes c = none ∧ ∃ d, Map.get b.classes c = some d ∧ d.sierra = true
@@ -153,8 +154,22 @@ theorem revertClasses_inverse {cfg : Cfg}
     · obtain ⟨x, hx⟩ := (mem_keys_iff ok.dDecl c).1 h1
       obtain ⟨hn, d, hd, _⟩ := ok.decl1 c x hx
       rw [hn, hd]; rfl
-  obtain ⟨s1, hok, e1, e2, e3, e4, e5, sc1, st1, gc1, gt1⟩ :=
-    removeDeclared_spec b.number ok.nodup (s := s') (by rw [hCl]; exact sCl') (by rw [hTr]; exact sTr') hknown
+  obtain ⟨s1, hok, e1, e2, e3, e4, e5, sc1, st1, gc1, gt1⟩ :
+      ∃ s1, removeDeclared cfg.dupTolerant b.number s'.classes s' (b.diff.declV0 ++ Map.keys b.diff.declV1) = .ok s1 ∧
+        s1.contracts = s'.contracts ∧ s1.storage = s'.storage ∧ s1.hStorage = s'.hStorage ∧ s1.hNonce = s'.hNonce ∧
+        s1.hClass = s'.hClass ∧ Sorted s1.classes ∧ Sorted s1.classTrie ∧
+        (∀ c, Map.get s1.classes c =
+          if c ∈ b.diff.declV0 ++ Map.keys b.diff.declV1 ∧ ((Map.get s'.classes c).map (·.declaredAt)) = some b.number then none
+          else Map.get s'.classes c) ∧
+        (∀ c, Map.get s1.classTrie c =
+          if c ∈ b.diff.declV0 ++ Map.keys b.diff.declV1 ∧
+              ((Map.get s'.classes c).map (fun r => (r.declaredAt, r.defn.sierra))) = some (b.number, true) then none
+          else Map.get s'.classTrie c) := by
+    cases ht : cfg.dupTolerant with
+    | true =>
+      exact removeDeclared_spec_tol b.number s'.classes _ (s := s') (by rw [hCl]; exact sCl') (by rw [hTr]; exact sTr') hknown
+    | false =>
+      exact removeDeclared_spec b.number s'.classes (ok.nodup ht) (s := s') (by rw [hCl]; exact sCl') (by rw [hTr]; exact sTr') hknown
   -- classes are back
   -- the optional removal of the classes registered for deployed contracts
   obtain ⟨sI, f1, f2, f3, f4, f5, f6, scI, stI, gcI, gtI⟩ :
